@@ -799,3 +799,32 @@ impl<T> Drop for MirroredListRef<'_, T> {
         // required for drop order
     }
 }
+
+/// Verification hooks (add-only, compiled only with `--cfg remoc_verif`).
+#[cfg(remoc_verif)]
+#[allow(missing_docs, private_interfaces, dead_code, clippy::all)]
+pub mod verif_hooks {
+    use super::*;
+
+    /// The mirror state machine (`MirroredListInner`) without its background task.
+    pub struct VMirror<T>(MirroredListInner<T>);
+
+    impl<T> VMirror<T> {
+        pub fn new(v: Vec<T>, complete: bool, done: bool, max_size: usize) -> Self {
+            VMirror(MirroredListInner { v, complete, done, error: None, max_size })
+        }
+
+        pub fn handle_event(&mut self, event: ListEvent<T>) -> Result<(), RecvError> {
+            self.0.handle_event(event)
+        }
+
+        pub fn contents(&self) -> &Vec<T> {
+            &self.0.v
+        }
+
+        /// (complete, done)
+        pub fn flags(&self) -> (bool, bool) {
+            (self.0.complete, self.0.done)
+        }
+    }
+}
